@@ -12,7 +12,10 @@ spectrum and shape obligations):
              retained eigenvalues (symbolic: transform(inverse_transform(T)) = T);
  R-NESTED    with the full solver n_components_ enters only through the final prefix
              slice of a k-independent decomposition;
- R-1D        a one-dimensional y gives one-dimensional pty_/pxy_ (guarded reshapes);
+ R-1D        a one-dimensional y gives one-dimensional pty_/pxy_ (guarded reshapes); the
+             fitted targets and regression weights reach the sample-space fit as
+             matrices (one column for a vector target) - its kernel and projector are
+             outer products only then;
  Shape       every projector / prediction in both spaces.
 Not decided: orthogonality and eigenvalue norms of the latent coordinates, loss
 monotonicity in k (consequences of exact eigendecomposition).
